@@ -205,10 +205,19 @@ pub struct Config {
 #[derive(Clone, Debug, Serialize, Deserialize)]
 pub enum Event {
     Emit { len: usize, fill: u64 },
-    Deliver { fault: Fault },
+    Deliver {
+        fault: Fault,
+        /// `crypto_sign_open` only: how the caller sized its message buffer — 0 from the wire
+        /// length, 1 for the original message whatever arrived, 2 one byte short, 3 seven bytes
+        /// too long, 4 empty
+        #[serde(default)]
+        buf: u8,
+    },
 }
 
 pub struct VerifierWorld {
+    /// buffer policy of the delivery in flight (see `Event::Deliver::buf`)
+    bufpol: std::cell::Cell<u8>,
     cfg: Config,
     sign_pk: [u8; 32],
     sign_sk: [u8; 64],
@@ -509,6 +518,8 @@ impl VerifierWorld {
             _ => self.sign_pk,
         };
         let key = self.mac_key;
+        let bufpol = self.bufpol.get();
+        let orig_len = self.msg.len();
         let oh = k.overhead();
         let password: Vec<u8> = if wrong_pw { b"not the password".to_vec() } else { self.msg.clone() };
         let mut skipped = false;
@@ -516,7 +527,15 @@ impl VerifierWorld {
         let r = guarded(|| -> Option<bool> {
             match k {
                 Kind::SignOpen => {
-                    let mut m = vec![0xC3u8; w.len().saturating_sub(64)];
+                    let wire_n = w.len().saturating_sub(64);
+                    let n = match bufpol {
+                        1 => orig_len,
+                        2 => wire_n.saturating_sub(1),
+                        3 => wire_n + 7,
+                        4 => 0,
+                        _ => wire_n,
+                    };
+                    let mut m = vec![0xC3u8; n];
                     Some(crypto_sign_open(&mut m, w, &pk).is_ok())
                 }
                 Kind::SignVerifyDetached => {
@@ -659,7 +678,7 @@ impl World for VerifierWorld {
         install_rng(cfg.rseed);
         let (sign_pk, sign_sk) = crypto_sign_keypair();
         let mac_key = crypto_auth_keygen();
-        VerifierWorld { cfg: cfg.clone(), sign_pk, sign_sk, mac_key, wire: None, msg: Vec::new(), plan: Vec::new(), planned: false }
+        VerifierWorld { bufpol: std::cell::Cell::new(0), cfg: cfg.clone(), sign_pk, sign_sk, mac_key, wire: None, msg: Vec::new(), plan: Vec::new(), planned: false }
     }
 
     fn next_event(&mut self, rng: &mut Rng) -> Option<Event> {
@@ -667,7 +686,7 @@ impl World for VerifierWorld {
             self.planned = true;
             let k = self.cfg.kind;
             let len = if k.is_string() { rng.usize_below(24) } else { crate::kit::prng::draw_len(rng, 600) };
-            let mut plan = vec![Event::Emit { len, fill: rng.next_u64() % 1000 }, Event::Deliver { fault: Fault::None }];
+            let mut plan = vec![Event::Emit { len, fill: rng.next_u64() % 1000 }, Event::Deliver { fault: Fault::None, buf: 0 }];
             let wire_guess = if k.is_string() { 100 } else { len + k.overhead() };
             for _ in 0..self.cfg.deliveries {
                 let f = if k.is_string() {
@@ -714,9 +733,10 @@ impl World for VerifierWorld {
                         _ => Fault::Splice { at: rng.usize_below(wire_guess.max(1)), n: 1 + rng.usize_below(20), fill: rng.next_u64() % 1000 },
                     }
                 };
-                plan.push(Event::Deliver { fault: f });
+                let buf = if k == Kind::SignOpen && rng.chance(1, 3) { 1 + rng.below(4) as u8 } else { 0 };
+                plan.push(Event::Deliver { fault: f, buf });
             }
-            plan.push(Event::Deliver { fault: Fault::None });
+            plan.push(Event::Deliver { fault: Fault::None, buf: 0 });
             plan.reverse();
             self.plan = plan;
         }
@@ -731,7 +751,11 @@ impl World for VerifierWorld {
                 out.shape(&format!("E{}", self.cfg.kind.name()));
                 out.note(&format!("emit {} len={} wire={:016x}", self.cfg.kind.name(), len, crate::kit::prng::fnv1a(self.wire.as_ref().unwrap())));
             }
-            Event::Deliver { fault } => {
+            Event::Deliver { fault, buf } => {
+                self.bufpol.set(*buf);
+                if *buf != 0 {
+                    out.fault("buffer.policy");
+                }
                 if self.wire.is_none() {
                     return;
                 }
@@ -776,8 +800,9 @@ impl World for VerifierWorld {
     fn shrink(ev: &Event) -> Vec<Event> {
         match ev {
             Event::Emit { len, fill } if *len > 0 => vec![Event::Emit { len: 0, fill: *fill }, Event::Emit { len: len / 2, fill: *fill }],
-            Event::Deliver { fault } => {
-                let mk = |f: Fault| Event::Deliver { fault: f };
+            Event::Deliver { fault, buf } => {
+                let buf = *buf;
+                let mk = |f: Fault| Event::Deliver { fault: f, buf };
                 match fault {
                     Fault::Flip { bit } if *bit > 0 => vec![mk(Fault::Flip { bit: 0 }), mk(Fault::Flip { bit: bit / 2 })],
                     Fault::Truncate { k } if *k > 1 => vec![mk(Fault::Truncate { k: 1 }), mk(Fault::Truncate { k: k / 2 }), mk(Fault::Truncate { k: k - 1 })],
@@ -793,7 +818,7 @@ impl World for VerifierWorld {
 
     fn crash_site(cfg: &Config, ev: &Event) -> Site {
         let fk = match ev {
-            Event::Deliver { fault } => fault.kind(),
+            Event::Deliver { fault, .. } => fault.kind(),
             _ => "emit",
         };
         site(&[("receiver", cfg.kind.name()), ("fault", fk)])
